@@ -111,7 +111,20 @@ Rewrap(B)  == /\ status = "ok" /\ B # enc /\ Len(hist) = 1 /\ status' = "raised"
 Collect(B) == /\ status = "ok" /\ B # enc /\ Len(hist) = 1 /\ status' = "raised"
               /\ hist' = Append(hist, <<"collect", B>>) /\ UNCHANGED <<text, enc, codes>>
 
-NextAll == Next \/ ReverseRows \/ ScribbleThenEncodeAgain \/ (\E B \in Names : Rewrap(B)) \/ (\E B \in Names : Collect(B))
+\* array[...] = value, the value already encoded with alphabet B (encoded_array.py __setitem__): the value is presented to the
+\* array's alphabet like in Retarget, roles swapped; the array keeps its alphabet and must then spell the text, or the assignment raises
+AssignFrom(B) == /\ status = "ok" /\ B # enc /\ Len(hist) = 1 /\ text # <<>> /\ Encodable(B, text)
+                 /\ LET vc == Encode(B, text)
+                        m == MaxCode(vc)
+                    IN status' = IF Prefix(Alphabets[B], m + 1) = Prefix(Alphabets[enc], m + 1) /\ m < Len(Alphabets[enc]) THEN "ok" ELSE "raised"
+                 /\ hist' = Append(hist, <<"assign", B>>) /\ UNCHANGED <<text, enc, codes>>
+
+\* the caller asks for the alphabet (get_alphabet / get_labels) and reorders the list it was given: the encoding is not the caller's
+\* list, so values encoded before still spell their text and encoding the text again gives the same codes
+ReorderLabelList == /\ status = "ok" /\ Len(hist) = 1 /\ text # <<>>
+                    /\ hist' = Append(hist, <<"reorder-labels", enc>>) /\ UNCHANGED <<text, enc, codes, status>>
+
+NextAll == Next \/ ReorderLabelList \/ (\E B \in Names : AssignFrom(B)) \/ ReverseRows \/ ScribbleThenEncodeAgain \/ (\E B \in Names : Rewrap(B)) \/ (\E B \in Names : Collect(B))
 SpecAll == Init /\ [][NextAll]_vars
 
 \* ---------------------------------------------------------------- properties
